@@ -48,6 +48,17 @@ def run(res, drv, tier, seed):
             prob = estgen.gen_problem(r, with_zeros=False, nmeas=r.randint(1, 4))
         engine = ['MD', 'RDA', 'IG'][ci % 3]
         total = r.choice([None, float(prob['N'])])
+        if ci in (5, 7):
+            # large populations with proportionally large noise: the smoothness constant is ~1e-9 and the solvers' step parameters live
+            # at the edge of double precision
+            scale = r.choice([1e4, 1e5])
+            for m in prob['meas']:
+                m['y'] = m['y'] * scale
+                m['noise'] = m['noise'] * scale * r.choice([10.0, 60.0])
+            prob['N'] = prob['N'] * scale
+            total = float(prob['N'])
+            engine = ['RDA', 'IG'][ci % 2 == 1]
+            res.count('scale: large totals and noise (smoothness constant ~1e-9)')
         attrs = [a for a, _ in prob['dom']]
         sizes = dict(map(tuple, prob['dom']))
         canon = dict(estgen.canon_problem(prob), engine=engine, total=total)
